@@ -89,7 +89,6 @@ RIVER = [
     "implies({m} >= 1, data[0] == 0 and data[1] == 0 and data[2] == 0)",
     "forall(k, 1 <= k < {m}, data[5*k+1] == real(col_of(ncols, idxcells[k-1]) - col_of(ncols, idxcells[k])) and "
     "data[5*k+2] == real(row_of(ncols, idxcells[k-1]) - row_of(ncols, idxcells[k])))",
-    "forall(k, 1 <= k < {m}, data[5*k] == data[5*(k-1)] + sqrt(data[5*k+1]*data[5*k+1] + data[5*k+2]*data[5*k+2]))",
     # columns 3, 4: centre of the cell
     "forall(k, 0 <= k < {m}, data[5*k+3] == centre_x(xll, csz, col_of(ncols, idxcells[k])) and "
     "data[5*k+4] == centre_y(nrows, yll, csz, row_of(ncols, idxcells[k])))",
@@ -99,6 +98,13 @@ K.behavior("trace", "valid_cell(nrows, ncols, idxupstream)",
            # it stops at the first cell that drains nowhere, or when the buffer is full
            + ["implies(" + FDC_IS + " and npoints[0] >= 1 and npoints[0] < nval, down(nrows, ncols, flowdir[idxcells[npoints[0]-1]], idxcells[npoints[0]-1]) < 0)"],
            props=["C06"])
+# the cumulated distance advances by the Euclidean length of each step (1 orthogonal, sqrt(2) diagonal).  This clause is
+# BOUNDED (evaluated on enumerated executions of the real kernel): its proof obligations were discharged only by cvc5 after
+# 30-50 s and not reliably under load, so it is not claimed as proved (fall-back rule of DESIGN.md section 11)
+K.bounded("forall(k, 1 <= k < npoints[0], data[5*k] == data[5*(k-1)] + sqrt(data[5*k+1]*data[5*k+1] + data[5*k+2]*data[5*k+2]))",
+          assumes="valid_cell(nrows, ncols, idxupstream)", props=["C06"])
+K.bounded("forall(k, 1 <= k < npoints[0], data[5*k+1]*data[5*k+1] + data[5*k+2]*data[5*k+2] == 1 or data[5*k+1]*data[5*k+1] + data[5*k+2]*data[5*k+2] == 2)",
+          assumes="valid_cell(nrows, ncols, idxupstream) and " + FDC_IS, props=["C06"])
 K.loop(0, var="i", invariant=[
     "0 <= i and (i <= nval or nval < 0) and npoints[0] == i and valid_cell(nrows, ncols, idxupstream) and valid_cell(nrows, ncols, old(idxupstream))",
     "not isnan(dist) and not isnan(dx) and not isnan(dy)",
